@@ -187,18 +187,22 @@ class Mods:
 _counter = [0]
 
 
-def load(instrumented=True, yields=False, names=MODULES, extra_globals=None, pre_modules=None, repo=None):
+def load(instrumented=True, yields=False, names=MODULES, extra_globals=None, pre_modules=None, repo=None, prefix=None, keep_logger=False):
     """Compile the modules from source and execute them under a fresh private package name."""
     repo = repo or REPO
     _counter[0] += 1
-    prefix = ('sxi_' if instrumented else 'sxn_') + 'adb_shell_%d' % _counter[0]
+    real_name = prefix is not None
+    if prefix is None:
+        prefix = ('sxi_' if instrumented else 'sxn_') + 'adb_shell_%d' % _counter[0]
     mods = Mods(prefix, instrumented)
     pkg = types.ModuleType(prefix)
-    pkg.__path__ = []
+    # under the real package name (translator validation) unlisted submodules (auth.*, usb) are imported from source as usual
+    pkg.__path__ = [os.path.join(repo, 'adb_shell')] if real_name else []
+    pkg.__file__ = os.path.join(repo, 'adb_shell', '__init__.py')
     sys.modules[prefix] = pkg
     for sub in ('transport', 'auth'):
         sp = types.ModuleType(prefix + '.' + sub)
-        sp.__path__ = []
+        sp.__path__ = [os.path.join(repo, 'adb_shell', sub)] if real_name else []
         sys.modules[prefix + '.' + sub] = sp
         setattr(pkg, sub, sp)
     for full, mod in (pre_modules or {}).items():
@@ -226,7 +230,7 @@ def load(instrumented=True, yields=False, names=MODULES, extra_globals=None, pre
         exec(code, m.__dict__)
         if instrumented and 'struct' in m.__dict__:
             m.__dict__['struct'] = core.struct_shim
-        if '_LOGGER' in m.__dict__:
+        if '_LOGGER' in m.__dict__ and not keep_logger:
             m.__dict__['_LOGGER'] = _NullLogger()
         setattr(sys.modules[m.__package__], n.split('.')[-1], m)
         mods.by_name[n.split('.')[-1]] = m
